@@ -13,25 +13,25 @@ CHECKS = {
         "design": "DESIGN.md §2 C01",
     },
     "C04": {
-        "technique": "static analysis: environment-effect typestate over MIR (failure atomicity), guarded-insert who-may-write rule; same typestate over the pattern engine's aggregator; shape of the equality predicate (iterator-pipeline walk)",
+        "technique": "static analysis: environment-effect typestate over MIR (failure atomicity), guarded-insert who-may-write rule; same typestate over the pattern engine's aggregator; shape of the equality predicate (iterator-pipeline walk); lookup-arm rule for 'unbound' in match_multi_var",
         "text": "Static typestate over every Matcher::match_node_with_env body: after the caller's environment is exposed to a callee, can the function still return None / discard the candidate? Decides the failure-atomicity mechanism behind 'failed alternatives leave no trace' for all rules and candidate orders; does not decide structural equality of bindings. Also decided: failure atomicity inside the pattern engine (retries run on a scratch aggregator) and the shape of the equality behind a repeated variable (all children of both nodes, kinds and arity compared).",
         "note": "Trusted: MIR construction; explicit model of std Option/Iterator combinators listed in the checker; reviewed table of accepted scratch-and-commit idioms.",
         "design": "DESIGN.md §2 C04",
     },
     "C08": {
-        "technique": "static analysis: trait-impl forwarding rule + generic-instantiation resolution + argument provenance over MIR; interprocedural value provenance (frame agreement of the splice base, file content identity)",
+        "technique": "static analysis: trait-impl forwarding rule + generic-instantiation resolution + argument provenance over MIR; interprocedural value provenance (frame agreement of the splice base, file content identity, replacement-text identity per front end)",
         "text": "Static who-resolves-to-what argument: every instantiation chain that reaches the replaced-range computation with a rule's Fixer resolves to Fixer's own method (never the trait default), wrappers forward every overridable method, no front end uses the node-range shortcut with a Fixer, and matcher+fixer passed together come from one rule object. This is the whole mechanism by which front ends can disagree about an edit, so the structural claim is close to the behaviour. Also decided: the text a fix is spliced into is the document text its range refers to, and the scanned text is the file content unmodified.",
         "note": "Trusted: nightly rustc MIR/trait resolution; instantiation chains followed to depth 6; determinism of the shared functions is C13's concern.",
         "design": "DESIGN.md §2 C08",
     },
     "C09": {
-        "technique": "static analysis: funnel (must-call / must-not-call) rules on front-end entry points, dominance check of the LSP stale-version guard; loop/pipeline completeness (no finding dropped before its emit), range provenance of listed findings",
+        "technique": "static analysis: funnel (must-call / must-not-call) rules on front-end entry points, dominance check of the LSP stale-version guard; loop/pipeline completeness (no finding dropped before its emit), range provenance of listed findings; scanned-text identity (read_file)",
         "text": "Static funnel argument: each front end obtains findings only from CombinedScan::scan over rules selected by the rule collection, messages only via RuleConfig::get_message; in the LSP change handler the version test dominates replacement and publication. Interleavings of concurrent handlers are not decided. Also decided: between scan result and listing no loop can skip its emit and no pipeline drops elements; the listed range is the matched node's; the combined index `sg test` is compared against is complete.",
         "note": "Trusted: MIR construction incl. coroutine lowering (CFG re-linked at resume points); tower-lsp scheduling is out of scope.",
         "design": "DESIGN.md §2 C09",
     },
     "C10": {
-        "technique": "static analysis: call-path counting (exactly-once Tree::edit), dominance order of point computation vs. splice, single-writer rule; must-pass-through of the re-parse; edit description passed on unmodified",
+        "technique": "static analysis: call-path counting (exactly-once Tree::edit), provenance of every point handed to Tree::edit relative to the splice (buffer reads before/after), single-writer rule; must-pass-through of the re-parse; edit description passed on unmodified",
         "text": "Static protocol check of the edit description handed to tree-sitter: on every path old tree and text are updated by the same edit exactly once, positions are computed against the right text version (dominance relative to the splice), and nobody else can mutate the text behind the tree. A necessary condition of the behavioural property; tree-sitter itself is trusted. Also decided: every path after perform_edit re-parses; no function on the way to do_edit rewrites a field of the Edit.",
         "note": "Trusted: tree-sitter's incremental parser given a correct InputEdit; MIR construction.",
         "design": "DESIGN.md §2 C10",
@@ -43,25 +43,25 @@ CHECKS = {
         "design": "DESIGN.md §2 C11",
     },
     "C12": {
-        "technique": "static analysis: check-funnel must-pass-through, type-driven visitor exhaustiveness, argument-flow (transform names reach every fixer construction); dominance of field tests over success exits in dependency visitors; declared-variables vs. environment-threading agreement",
+        "technique": "static analysis: check-funnel must-pass-through, type-driven visitor exhaustiveness, argument-flow (transform names reach every fixer construction); dominance of field tests over success exits in dependency visitors; declared-variables vs. environment-threading agreement; kind-set obligations shared with C01",
         "text": "Static argument that every matcher handed out passed the variable/reference checks, that structural visitors (defined_vars, verify_util, cycle detection) cover every rule-bearing field of the rule type, and that the fixer is built with knowledge of the transform names on every path. Also decided: dependency visitors examine every same-node field before succeeding, transformations always report their source to the sort, and a sub-rule whose variables are declared is never evaluated through the env-less API (converse clause).",
         "note": "Trusted: MIR/type tables; that Pattern::defined_vars equals run-time bindings is not decided.",
         "design": "DESIGN.md §2 C12",
     },
     "C13": {
-        "technique": "static analysis: hashed-iteration sink classification + ordering-funnel dominance rules",
+        "technique": "static analysis: hashed-iteration sink classification + ordering-funnel dominance rules; loop-invariance of the rewriter-inherited environment in the hash-ordered transform loop",
         "text": "Static audit of every iteration over HashMap/HashSet/DashMap in workspace code: the iterator's sink is classified order-insensitive / order-sensitive; sensitive sites must be in a reviewed table or are violations; ordering funnels (toposort, sorts before dispatch, ordered snapshot maps) are checked by dominance.",
         "note": "Trusted: reviewed table /verif/tables/hash_order.json; dependencies deterministic; file enumeration order only affects emission order.",
         "design": "DESIGN.md §2 C13",
     },
     "C17": {
-        "technique": "static analysis: effect analysis over the call graph from producer entry points (shared-state writes), CFG arm rule for per-file failure isolation; classified who-may-call table for walker filters; synchronisation-API audit (no readable shared state, no stdout) in producer-reachable code",
+        "technique": "static analysis: effect analysis over the call graph from producer entry points (shared-state writes), CFG arm rule for per-file failure isolation; classified who-may-call table for walker filters; synchronisation-API audit (no readable shared state, no stdout) in producer-reachable code; panic-site audit restricted to producers",
         "text": "Static effect analysis valid for every schedule: code reachable from walker-thread producers performs no unsynchronised shared write (static mut, registries, env, cwd), per-file errors lead to Continue never Quit, each produced item is sent exactly once. Also decided: content-based skipping has one authority (read_file), walkers carry only path/config filters, producers share no readable state and never write stdout.",
         "note": "Trusted: ignore's parallel walker; std::sync::mpsc; setup happens-before spawn is checked by dominance in main.",
         "design": "DESIGN.md §2 C17",
     },
     "C18": {
-        "technique": "static analysis: field-read provenance (announce/apply share one datum), who-may-write-files rule, loop rule for one payload per path; output-option read audit (announce/apply modes scan alike); payload completeness; frame agreement; half-open overlap boundary",
+        "technique": "static analysis: field-read provenance (announce/apply share one datum), who-may-write-files rule, loop rule for one payload per path; output-option read audit (announce/apply modes scan alike); payload completeness; frame agreement; half-open overlap boundary; scan-loop exhaustion independent of the mode flag",
         "text": "Static argument that the JSON announcer and the applier read the same Diff fields, that only the interactive printer writes user files, and that no producer creates several whole-file Diffs payloads for one path inside a loop over documents. Also decided: producers read output options only through needs_interactive; every fixable match reaches the accept loop; the splice base is the document text; overlap filters use the half-open boundary.",
         "note": "Trusted: std::fs; byte-level equality of the written file is value-level and not decided.",
         "design": "DESIGN.md §2 C18",
